@@ -1,0 +1,78 @@
+//go:build verif
+
+package verifspec
+
+// Standard-library overlays (build.parseAndAugment and helpers): property C12.
+// The directive predicates of compiler/astutil are abstract here (uninterpreted functions of the node).
+
+//@ pure funcKeyOf(d int) int
+//@ pure recvKeyOf(d int) int
+//@ pure keepOrig(d int) bool
+//@ pure overSig(d int) bool
+//@ pure purged(n int) bool
+
+//@ extern compiler/astutil.FuncKey
+//@   param d
+//@   assigns nothing
+//@   ensures str(result) == funcKeyOf(ref(d))
+//@ extern compiler/astutil.FuncReceiverKey
+//@   param d
+//@   assigns nothing
+//@   ensures str(result) == recvKeyOf(ref(d))
+//@ extern compiler/astutil.KeepOriginal
+//@   param d
+//@   assigns nothing
+//@   ensures result == keepOrig(ref(d))
+//@ extern compiler/astutil.OverrideSignature
+//@   param d
+//@   assigns nothing
+//@   ensures result == overSig(ref(d))
+//@ extern compiler/astutil.Purge
+//@   param d
+//@   assigns nothing
+//@   ensures result == purged(key(d))
+
+//@ extern build.finalizeRemovals
+//@   param file
+//@   assigns file.Decls, file.Imports, file.Comments
+//@   ghost finalized = true
+//@ extern build.pruneImports
+//@   param file
+//@   assigns file.Decls, file.Imports, file.Comments
+//@   ghost pruned = true
+
+// augmentOverlayFile: every function or method declared in the overlay is recorded under its key, with the
+// keep-original flag of its directive, and with the declaration itself as the signature override exactly when it
+// carries override-signature; if anything was purged the file is cleaned up (removals finalised, imports pruned).
+//@ func build.augmentOverlayFile
+//@ property C12
+//@   requires file != nil && !isnil(overrides)
+//@   requires forall(k, 0, len(file.Decls), file.Decls[k] != nil)
+//@   ghost finalized = false
+//@   ghost pruned = false
+//@   panics_only_if true
+//@   loop 1 assigns elems(file.Decls)
+//@   loop 1 invariant 0 <= $i1 && $i1 <= len(file.Decls) && !isnil(overrides) && len(file.Decls) == len(old(file.Decls))
+//@   loop 1 invariant forall(k, 0, $i1, typeis(old(file.Decls)[k], "*go/ast.FuncDecl") ==> has(overrides, funcKeyOf(ref(old(file.Decls)[k]))))
+//@   loop 1 invariant forall(k, $i1, len(file.Decls), file.Decls[k] == old(file.Decls)[k])
+//@   loop 1 invariant !finalized && !pruned
+//@   loop 1 invariant forall(k, 0, $i1, purged(key(old(file.Decls)[k])) ==> file.Decls[k] == nil && anyChange)
+//@   loop 1 invariant forall(k, 0, $i1, typeis(old(file.Decls)[k], "*go/ast.FuncDecl") && overSig(ref(old(file.Decls)[k])) ==> file.Decls[k] == nil && anyChange)
+//@   loop 2 invariant 0 <= $i1 && $i1 < len(file.Decls) && !isnil(overrides) && len(file.Decls) == len(old(file.Decls))
+//@   loop 2 invariant forall(k, 0, $i1, typeis(old(file.Decls)[k], "*go/ast.FuncDecl") ==> has(overrides, funcKeyOf(ref(old(file.Decls)[k]))))
+//@   loop 2 invariant forall(k, $i1, len(file.Decls), file.Decls[k] == old(file.Decls)[k])
+//@   loop 2 invariant !finalized && !pruned
+//@   loop 2 invariant forall(k, 0, $i1, purged(key(old(file.Decls)[k])) ==> file.Decls[k] == nil && anyChange)
+//@   loop 2 invariant forall(k, 0, $i1, typeis(old(file.Decls)[k], "*go/ast.FuncDecl") && overSig(ref(old(file.Decls)[k])) ==> file.Decls[k] == nil && anyChange)
+//@   loop 3 invariant 0 <= $i1 && $i1 < len(file.Decls) && !isnil(overrides) && len(file.Decls) == len(old(file.Decls))
+//@   loop 3 invariant forall(k, 0, $i1, typeis(old(file.Decls)[k], "*go/ast.FuncDecl") ==> has(overrides, funcKeyOf(ref(old(file.Decls)[k]))))
+//@   loop 3 invariant forall(k, $i1, len(file.Decls), file.Decls[k] == old(file.Decls)[k])
+//@   loop 3 invariant !finalized && !pruned
+//@   loop 3 invariant forall(k, 0, $i1, purged(key(old(file.Decls)[k])) ==> file.Decls[k] == nil && anyChange)
+//@   loop 3 invariant forall(k, 0, $i1, typeis(old(file.Decls)[k], "*go/ast.FuncDecl") && overSig(ref(old(file.Decls)[k])) ==> file.Decls[k] == nil && anyChange)
+//@   ensures forall(k, 0, len(old(file.Decls)), typeis(old(file.Decls)[k], "*go/ast.FuncDecl") ==> has(overrides, funcKeyOf(ref(old(file.Decls)[k]))))
+// a purged declaration, and a function that only overrides a signature, is gone from the overlay when the clean-up runs
+//@   oncall finalizeRemovals: assert forall(k, 0, len(file.Decls), purged(key(old(file.Decls)[k])) ==> file.Decls[k] == nil)
+//@   oncall finalizeRemovals: assert forall(k, 0, len(file.Decls), typeis(old(file.Decls)[k], "*go/ast.FuncDecl") && overSig(ref(old(file.Decls)[k])) ==> file.Decls[k] == nil)
+//@   ensures forall(k, 0, len(old(file.Decls)), purged(key(old(file.Decls)[k])) ==> finalized && pruned)
+//@   ensures forall(k, 0, len(old(file.Decls)), typeis(old(file.Decls)[k], "*go/ast.FuncDecl") && overSig(ref(old(file.Decls)[k])) ==> finalized && pruned)
